@@ -162,21 +162,26 @@ def run(ck):
     position_order(ck, "C11.6")
     # ---- C11.4
     gs = p.find_method("OpticalMap", "getSequence")
+    rs = V("reverseStrand")
+    by_strand = {}
     for pa in explore(ck, gs):
         if pa.outcome != "return":
             continue
-        v = pa.value
-        w = where(gs, pa.node)
-        rs = V("reverseStrand")
-        fwd_t = T.specialize(v, {rs: False})
-        rev_t = T.specialize(v, {rs: True})
-        want = ("slice", fwd_t, T.NONE, T.NONE, C(-1))
-        alt = ("call", "reversed", (fwd_t,), ())
-        ck.judge(rev_t in (want, alt) or (rev_t[0] == "mcall" and rev_t[2] == "__getitem__"), "C11.4", short(gs) + ":reversal", w,
-                 "reverse-strand vector = complete reversal of the forward vector", found=T.show(rev_t)[:200],
-                 required=T.show(want)[:200])
-        ck.judge(fwd_t[0] == "app" and fwd_t[1].endswith("positionsToSequence") and dict(fwd_t[3]).get("positions") == self_attr("positions"),
-                 "C11.4", short(gs) + ":forward", w, "forward vector is the vectorisation of the map's own positions", found=T.show(fwd_t)[:160])
+        known = pa.facts.get(rs)
+        for strand in ((False, True) if known is None else (known,)):
+            by_strand[strand] = (T.specialize(pa.value, {rs: strand}), pa)
+    if set(by_strand) != {False, True}:
+        raise AnalysisError(f"{gs.where}: getSequence does not return a vector for both strands")
+    (fwd_t, fpa), (rev_t, rpa) = by_strand[False], by_strand[True]
+    want = ("slice", fwd_t, T.NONE, T.NONE, C(-1))
+    alt = ("call", "reversed", (fwd_t,), ())
+    alt2 = ("call", "list", (alt,), ())
+    ck.judge(rev_t in (want, alt, alt2) or (rev_t[0] == "mcall" and rev_t[2] == "__getitem__"), "C11.4", short(gs) + ":reversal",
+             where(gs, rpa.node), "reverse-strand vector = complete reversal of the forward vector", found=T.show(rev_t)[:200],
+             required=T.show(want)[:200])
+    ck.judge(fwd_t[0] == "app" and fwd_t[1].endswith("positionsToSequence") and dict(fwd_t[3]).get("positions") == self_attr("positions"),
+             "C11.4", short(gs) + ":forward", where(gs, fpa.node), "forward vector is the vectorisation of the map's own positions",
+             found=T.show(fwd_t)[:160])
     gi = p.find_method("OpticalMap", "getInitialAlignment")
     seen_q = seen_r = False
     for pa in explore(ck, gi, unroll=(0, 1)):
